@@ -42,6 +42,8 @@ def cases(draw, tier):
             elif r < 6:
                 steps.append({'op': 'qiter', 's': 0, 'n': draw(st.sampled_from([None, 1, 2, 3])),
                               'gap': draw(st.sampled_from([None, None, 0.5, 1]))})
+                if draw(st.integers(0, 3)) == 0:
+                    steps[-1]['explicit'] = True       # iterator object kept in a variable, anext() per step
             elif r < 8:
                 steps.append(sl())
             else:
